@@ -164,6 +164,9 @@ def job(j):
 
 def replay(rec):
     kind = rec['kind']
+    if kind == 'rope':
+        from . import c06_ropes
+        return c06_ropes.replay_rope(rec)
     if kind == 'xhair':
         mod, fn = rec['target'].rsplit('.', 1)
         m = importlib.import_module(mod)
@@ -288,14 +291,34 @@ def main(tier, seed):
     for r in run_jobs('vf.props.c06', 'job', jobs, 'nrt'):
         chk.add('framing', r)
     chk.require_notes('framing', ['clump:default', 'clump:sync', 'clump:sym', 'd_recv', 'd_load'])
+    # (D) symbolic-content ropes: message and bundle framing, decoding, size prediction, NUL refusal
+    from . import c06_ropes
+    templates = c06_ropes.TEMPLATES_QUICK if tier == 'quick' else c06_ropes.TEMPLATES_THOROUGH
+    rjobs = []
+    for t in templates:
+        nstr = sum(t.count(c) for c in 'sbM')
+        N = (4 if nstr <= 2 else 3) if tier == 'quick' else (9 if nstr <= 1 else 7 if nstr == 2 else 4)
+        for b in (False, True):
+            rjobs.append(dict(template=t, N=N, bundle=b))
+    for r in run_jobs('vf.props.c06_ropes', 'job_rope', rjobs, 'nrt'):
+        chk.add('ropes', r)
+    chk.require_notes('ropes', ['rope:' + t + (':bundle' if b else '') for t in templates for b in (False, True)] +
+                      ['accepted', 'refused-nul'])
     chk.bounds = {'crosshair': 'str arguments of <= 3 characters (any code point), bytes of <= 5-6, any int; argument '
                                'templates: scalars+coercions, blob+strings, nested message/bundle/array markers, bundle '
                                'with nested bundle; floats from a fixed edge list (struct is C code)',
                   'clumping': '<= 3 (quick) / 5 elements, sizes 8..80000 bytes symbolic, limit 8192 / 65468 / symbolic',
                   'd_recv': 'definition sizes limit-40 .. limit+4, three completion-message shapes',
-                  'outside': 'strings longer than 3 characters and blobs longer than 6 bytes in the CrossHair '
-                             'conditions; timetag content (C07); TCP framing'}
-    chk.assumptions = ['vf/oscref.py is the OSC 1.0 reference reader', 'CrossHair 0.0.110: "Confirmed over all paths" '
+                  'ropes': 'argument templates ' + ', '.join(templates) + ' (s string, b blob, i int32, f float, T/F/N/E '
+                           'coercions, M nested message, B nested bundle, [ ] array markers) as a message and as the first '
+                           'element of a bundle; every string / blob length 0..N (N = 3..4 quick, 4..9 thorough, forked), '
+                           'EVERY byte value symbolic (0..255), ints over int32, floats symbolic reals; address "/" + 0..4 '
+                           'symbolic bytes',
+                  'outside': 'strings / blobs longer than the stated N; utf-8 well-formedness of string bytes (cells are '
+                             'opaque byte values, the character count is a separate symbolic n with n <= bytes <= 4n); a '
+                             'one-byte string equal to "[" or "]" (array marker by convention); float32 rounding; timetag '
+                             'content (C07); TCP framing'}
+    chk.assumptions = ['vf/oscref.py is the OSC 1.0 reference reader', 'ropes: str / bytes are replaced by the cell-list proxies of vf/ropes.py (str / bytes / struct class shims inside _osclib, _oscinterface, netaddr); the expected layout walk in vf/props/c06_ropes.py is written from the OSC 1.0 text', 'CrossHair 0.0.110: "Confirmed over all paths" '
                        'is taken as the solver verdict within the preconditions',
                        'clumping: element sizes come from a stub of _calc_msg_dgram_size (its agreement with the real '
                        'size is part (A)); models are replayed with real messages of those sizes']
